@@ -320,7 +320,7 @@ class TypeTransformer:
             raise TypeError
 
         if self.no_data_loss:
-            if isinstance(data, (list, set, tuple)):
+            if multi(data):
                 result = {}
                 try:
                     for item in data:
@@ -336,8 +336,10 @@ class TypeTransformer:
         else:
             try:
                 # try for iterable of key, value pairs
-                # but data loss may happen in this case
-                # like dict([{"a": 1, "b": 2}]) == {"a": "b"}
+                # a collection that holds mappings is never read as key, value pairs
+                # (dict([{"a": 1, "b": 2}]) == {"a": "b"} would disagree with the no_data_loss result)
+                if multi(data) and any(isinstance(item, Mapping) for item in data):
+                    raise TypeError
                 return t(data)
                 # directly return
             except (TypeError, ValueError):
